@@ -122,7 +122,7 @@ impl<'a, 'b, Output: BinaryOutput> AdtSerializer<'a, 'b, Output> {
     fn record_field_index(&mut self, field_name: &str, chunk: u8) {
         match self.last_index_per_chunk.get_mut(&chunk) {
             Some(last_index) => {
-                let new_index = *last_index + 1;
+                let new_index = last_index.saturating_add(1);
                 *last_index = new_index;
                 self.field_indices
                     .insert(field_name.to_string(), FieldPosition::new(chunk, new_index));
@@ -155,6 +155,12 @@ impl<'a, 'b, Output: BinaryOutput> AdtSerializer<'a, 'b, Output> {
                     Ok(SerializedEvolutionStep::FieldAddedToNewChunk { size })
                 }
                 Evolution::FieldMadeOptional { name } => match self.field_indices.get(name) {
+                    // positions in chunk 0 are stored as a negated i8
+                    Some(field_position)
+                        if field_position.chunk == 0 && field_position.position > 128 =>
+                    {
+                        Err(Error::LengthTooLarge)
+                    }
                     Some(field_position) => Ok(SerializedEvolutionStep::FieldMadeOptional {
                         position: *field_position,
                     }),
